@@ -130,6 +130,10 @@ class Program(object):
                     sys.stderr.write('MIR parse error in %s: %s\n' % (b.name[:80], e[:300]))
             raise SystemExit(2)
         self.meta = Meta(fe['doc'])
+        # one-line constant items:  const NAME: T = const <literal>;
+        self.simple_consts = {}
+        for mm in re.finditer(r'^const ([A-Za-z_][A-Za-z_0-9:<> ,]*?): ([^=]+?) = const (.*);$', text, re.M):
+            self.simple_consts.setdefault(mm.group(1).split('::')[-1], []).append(mm.group(3).strip())
         self.by_name = {}
         self.by_impl = {}
         for b in self.bodies:
